@@ -516,6 +516,34 @@ where
     })
 }
 
+/// `pvar kID NAME` : log the value of a variable as seen when the command runs
+/// ("UNSET" if it has no value) and whether it is exported; exit status 0.
+fn pvar_main<S: yash_env::system::GetPid>(
+    env: &mut Env<S>,
+    args: Vec<Field>,
+) -> Pin<Box<dyn Future<Output = yash_env::builtin::Result> + '_>> {
+    let id = args.first().map(|f| f.value.clone()).unwrap_or_default();
+    let name = args.get(1).map(|f| f.value.clone()).unwrap_or_default();
+    let (val, exported) = match env.variables.get(&name) {
+        Some(v) => (
+            match &v.value {
+                Some(yash_env::variable::Value::Scalar(s)) => s.clone(),
+                Some(yash_env::variable::Value::Array(a)) => a.join(" "),
+                None => "UNSET".to_string(),
+            },
+            v.is_exported,
+        ),
+        None => ("UNSET".to_string(), false),
+    };
+    push_event(Event {
+        pid: pid_of(env),
+        kind: "probe",
+        args: vec![id, val, if exported { "exported".into() } else { "-".into() }],
+        status: status_of(env),
+    });
+    Box::pin(std::future::ready(yash_env::builtin::Result::new(ExitStatus(0))))
+}
+
 /// `ret N` : return N, no other effect.
 fn ret_main<S>(
     _env: &mut Env<S>,
@@ -747,6 +775,7 @@ where
         ("probe", Builtin::new(Type::Mandatory, probe_main::<S>)),
         ("echo", Builtin::new(Type::Mandatory, echo_main::<S>)),
         ("ret", Builtin::new(Type::Mandatory, ret_main::<S>)),
+        ("pvar", Builtin::new(Type::Mandatory, pvar_main::<S>)),
     ]
 }
 
